@@ -22,6 +22,17 @@ Definition fl_is_nonzero (x : fl) : bool := match x with FFin r => negb (is_zero
 Definition rf_is_positive (x : rf) : bool := negb (rc x =? 0) && negb (rs x).
 Definition rf_is_negative (x : rf) : bool := negb (rc x =? 0) && rs x.
 
+(* Which of the four genuine defects recorded for C16 (known_findings.d/C16.json,
+   fixes/C16-*.diff) are repaired in the modelled code.  `as_coded` is /repo at
+   the pinned commit; `all_fixed` is /repo with the four proposed patches.  The
+   check probes the implementation and evaluates the matching variant. *)
+Record fixes := FX { fx_repr : bool; fx_enc_inf : bool; fx_enc_nan : bool; fx_norm : bool }.
+Definition as_coded := FX false false false false.
+Definition all_fixed := FX true true true true.
+
+Section Model.
+Variable fx : fixes.
+
 (* ================================================================ MPSFloatFormat (mps_float.py) *)
 Record mpsfmt := MPSF { s_pmax : Z; s_emin : Z; s_nan : bool; s_inf : bool }.
 Definition s_expmin (f : mpsfmt) : Z := s_emin f - s_pmax f + 1.
@@ -182,9 +193,15 @@ Definition mpf_from_ord (f : mpffmt) (o : Z) (infval : bool) : result fl :=
    is shifted RIGHT and for offset < 0 LEFT (see Props/C16.v: refuted) *)
 Definition mpf_normalize_rf (f : mpffmt) (x : rf) : rf :=
   let offset := rexp x - f_expmin f in
-  if offset >? 0 then RF (rs x) (rexp x - offset) (Z.shiftr (rc x) offset)
-  else if offset <? 0 then RF (rs x) (rexp x - offset) (Z.shiftl (rc x) (- offset))
-  else x.
+  if fx_norm fx then
+    (* fixes/C16-mpfixed-normalize.diff: shift towards the format's exponent *)
+    if offset >? 0 then RF (rs x) (rexp x - offset) (Z.shiftl (rc x) offset)
+    else if offset <? 0 then RF (rs x) (rexp x - offset) (Z.shiftr (rc x) (- offset))
+    else x
+  else
+    if offset >? 0 then RF (rs x) (rexp x - offset) (Z.shiftr (rc x) offset)
+    else if offset <? 0 then RF (rs x) (rexp x - offset) (Z.shiftl (rc x) (- offset))
+    else x.
 Definition mpf_normalize (f : mpffmt) (x : fl) : fl :=
   match x with FFin r => FFin (mpf_normalize_rf f r) | _ => x end.
 Definition mpf_canonical (f : mpffmt) (x : fl) : bool :=
@@ -394,6 +411,10 @@ Definition ef_has_nonzero (f : efmt) : bool := has_nonzero (e_nbits f) (e_inf f)
 (* EFloatFormat.representable_in, exactly as coded: NaN and the infinities
    fall through to the final `return self.has_nonzero()` *)
 Definition ef_repr (f : efmt) (x : fl) : bool :=
+  if fx_repr fx && fl_is_nar x then
+    (* fixes/C16-efloat-representable-nar.diff *)
+    match x with FInf _ => e_inf f | _ => negb (nan_kind_eqb (e_kind f) NK_NONE) end
+  else
   if (match x with FInf _ => negb (e_inf f) | FNaN _ => nan_kind_eqb (e_kind f) NK_NONE | _ => false end) then false
   else if negb (mpb_repr (ef_mpb f) x) then false
   else if fl_is_zero x then negb (fl_s x && nan_kind_eqb (e_kind f) NK_NEGZERO)
@@ -405,7 +426,10 @@ Definition ef_encode (f : efmt) (x : fl) : result Z :=
   else
     let es := e_es f in
     let m := ef_m f in
-    let sbit := if fl_s x then 1 else 0 in
+    let sbit :=
+      (* fixes/C16-efloat-encode-negzero-nan.diff: the NEG_ZERO NaN code has the sign bit set *)
+      if fx_enc_nan fx && fl_isnan x && nan_kind_eqb (e_kind f) NK_NEGZERO then 1
+      else if fl_s x then 1 else 0 in
     let '(ebits, mbits) :=
       match x with
       | FNaN _ =>
@@ -418,7 +442,11 @@ Definition ef_encode (f : efmt) (x : fl) : result Z :=
       | FInf _ =>
           match e_kind f with
           | NK_IEEE => (bitmask es, 0)
-          | NK_MAXVAL => if ef_pmax f =? 1 then (bitmask es - 1, 1) else (bitmask es, bitmask m - 1)
+          | NK_MAXVAL =>
+              if ef_pmax f =? 1 then
+                (* fixes/C16-efloat-encode-inf-p1.diff: no mantissa field when p = 1 *)
+                (bitmask es - 1, if fx_enc_inf fx then 0 else 1)
+              else (bitmask es, bitmask m - 1)
           | NK_NEGZERO | NK_NONE => (bitmask es, bitmask m)
           end
       | FFin r =>
@@ -536,6 +564,15 @@ Definition exp_normalize (f : expfmt) (x : fl) : result fl :=
            if rc r =? 0 then Ok (FFin (RF (rs r) 0 0))
            else bind (normalize r (Some 1) None) (fun y => Ok (FFin (RF (rs r) (rexp y) (rc y))))
        end.
+(* MPFloatFormat(1).canonical_under *)
+Definition exp_canonical (f : expfmt) (x : fl) : result bool :=
+  if negb (exp_repr f x) then Err ValueErr
+  else match x with FFin r => Ok (rf_p r =? 1) | _ => Ok true end.
+(* ExpFormat.infval: maxval.next_away_zero(p=1) *)
+Definition exp_infval (f : expfmt) (s : bool) : result fl :=
+  if s then Err ValueErr
+  else let mv := RF false (exp_emax f) 1 in
+       bind (next_away mv (rf_n mv) (Some 1)) (fun y => Ok (FFin y)).
 Definition exp_minval (f : expfmt) (s : bool) : result fl :=
   if s then Err ValueErr else Ok (FFin (RF false (exp_emin f) 1)).
 Definition exp_maxval (f : expfmt) (s : bool) : result fl :=
@@ -589,3 +626,5 @@ Definition mpf_ops (f : mpffmt) := ORDOPS (mpf_repr f) (mpf_to_ord f) (mpf_from_
 Definition mpbf_ops (f : mpbffmt) := ORDOPS (mpbf_repr f) (mpbf_to_ord f) (mpbf_from_ord f).
 Definition ef_ops (f : efmt) := ORDOPS (ef_repr f) (ef_to_ord f) (ef_from_ord f).
 Definition exp_ops (f : expfmt) := ORDOPS (exp_repr f) (exp_to_ord f) (exp_from_ord f).
+
+End Model.
